@@ -9,6 +9,7 @@ import NutsProofs.Lemmas.KVRefine
 import NutsProofs.Lemmas.Hints
 import NutsProofs.Lemmas.PrefixRefine
 import NutsProofs.Facts
+import NutsProofs.Pins.BPT
 namespace NutsProofs.C01
 open Nuts Nuts.Model Nuts.Model.DB NutsProofs
 
